@@ -121,6 +121,7 @@ type Config struct {
 	ReceiptCap int      `json:"receipt_cap"`
 	Conns      int      `json:"conns"`
 	IdleMs     int      `json:"idle_ms,omitempty"` // client idle timeout (wire driver); 0 = one hour
+	ReqBase    uint32   `json:"req_base,omitempty"` // request ids count up from here (0 = 100): ids beyond 2^16 and 2^31 must be echoed like small ones
 }
 
 type Script struct {
